@@ -105,8 +105,9 @@ class FIXContainer:
     def _check_tag(tag: str | int | FTag) -> str:
         # tag also might be an FTag enum (so cast to str first)
         tag_str = str(tag)
-        if not (tag_str.isascii() and tag_str.isdigit()):
+        if not (tag_str.isascii() and tag_str.isdigit()) or len(tag_str) > 18:
             # int() is too tolerant: ' 58', '+58', '5_8', non ASCII digits
+            #   (decoder does not accept tags of more than 18 digits)
             raise FIXMessageError("Tags must be only integers")
         if tag_str[0] == "0":
             # the same tag written with leading zeros
